@@ -69,25 +69,25 @@ impl LineIndex {
         self.line_offsets.len()
     }
 
-    // get col base 0
+    // get col base 0, in UTF-16 code units (the LSP default position encoding)
     pub fn get_col(&self, offset: TextSize, source_text: &str) -> Option<usize> {
         let (line, start_offset) = self.get_line_with_start_offset(offset)?;
         if self.is_line_only_ascii_index(line) {
             Some(usize::from(offset - start_offset))
         } else {
             let text = &source_text[usize::from(start_offset)..usize::from(offset)];
-            Some(text.chars().count())
+            Some(text.chars().map(char::len_utf16).sum())
         }
     }
 
-    // get line and col base 0
+    // get line and col base 0, col in UTF-16 code units (the LSP default position encoding)
     pub fn get_line_col(&self, offset: TextSize, source_text: &str) -> Option<(usize, usize)> {
         let (line, start_offset) = self.get_line_with_start_offset(offset)?;
         if self.is_line_only_ascii_index(line) {
             Some((line, usize::from(offset - start_offset)))
         } else {
             let text = &source_text[usize::from(start_offset)..usize::from(offset)];
-            Some((line, text.chars().count()))
+            Some((line, text.chars().map(char::len_utf16).sum()))
         }
     }
 
@@ -122,12 +122,14 @@ impl LineIndex {
             let mut offset = 0;
             let mut col = col;
             for c in source_text[start..end].chars() {
-                if col == 0 {
+                // the character of an LSP position counts UTF-16 code units
+                let units = c.len_utf16();
+                if col < units {
                     break;
                 }
 
                 offset += c.len_utf8();
-                col -= 1;
+                col -= units;
             }
             Some(start_offset + TextSize::from(offset as u32))
         }
